@@ -408,6 +408,24 @@ pub fn mutations(rng: &mut Rng, file: &[u8], stride: usize) -> Vec<(String, Vec<
                     out.push((format!("fctl#{}@{}={}", k, at, val), rebuild(&l)));
                 }
             }
+            // a frame of zero width (or height) whose data is consistent with that size: `height` rows holding
+            // nothing but their filter byte - only such a frame gets past the size checks of the frame decoder
+            if n == b"fcTL" && d.len() == 26 {
+                if let Some(fd) = (k + 1..list.len()).take_while(|j| &list[*j].0 != b"fcTL").find(|j| &list[*j].0 == b"fdAT") {
+                    let h = u32::from_be_bytes(d[8..12].try_into().unwrap()) as usize;
+                    for (what, at, rows) in [("w", 4usize, h.min(4096)), ("h", 8usize, 0usize)] {
+                        let mut l = list.clone();
+                        l[k].1[at..at + 4].copy_from_slice(&0u32.to_be_bytes());
+                        let mut payload = l[fd].1[..4.min(l[fd].1.len())].to_vec();
+                        payload.extend(miniz_oxide::deflate::compress_to_vec_zlib(&vec![0u8; rows], 6));
+                        l[fd].1 = payload;
+                        // drop further fdAT parts of the same frame
+                        let extra: Vec<usize> = (fd + 1..l.len()).take_while(|j| &l[*j].0 == b"fdAT").collect();
+                        for j in extra.into_iter().rev() { l.remove(j); }
+                        out.push((format!("fctl#{}zero-{}-consistent", k, what), rebuild(&l)));
+                    }
+                }
+            }
             if n == b"acTL" {
                 let mut l = list.clone();
                 l[k].1 = vec![0xff; 8];
